@@ -78,7 +78,15 @@ def corr_jac(res, a, entry_texts, where, case):
 
 
 def rendered_matrix(d, solver, method):
-    """{(row, col): text} of a rendered Jacobian, plus declared CSR arrays if any"""
+    """{(row, col): text} of a rendered Jacobian, plus declared CSR arrays if any; (None, reason) when the reader does not
+    understand the layout of the file (the compiled routines of channel C then decide alone)"""
+    try:
+        return _rendered_matrix(d, solver, method)
+    except (ValueError, AttributeError, IndexError, KeyError) as e:
+        return None, f"{type(e).__name__}: {e}"
+
+
+def _rendered_matrix(d, solver, method):
     if solver == "odeint":
         src = (d / "src" / "naunet_ode.cpp").read_text()
         body = ol.resolve_aliases(src[src.index("void Jac::operator()"):])        # a local reference to the matrix is the matrix
@@ -103,8 +111,9 @@ def rendered_matrix(d, solver, method):
         init = src[src.index("int InitJac("):src.index("__global__ void JacKernel")]
         m1 = re.search(r"rowptrs\[NEQUATIONS \+ 1\] = \{(.*?)\};", init, re.S)
         m2 = re.search(r"colvals\[NNZ\] = \{(.*?)\};", init, re.S)
-        rp = [int(x) for x in m1.group(1).replace("\n", " ").split(",") if x.strip()]
-        cv = [int(x) for x in m2.group(1).replace("\n", " ").split(",") if x.strip()]
+        nocom = lambda t: re.sub(r"/\*.*?\*/|//[^\n]*", " ", t, flags=re.S)
+        rp = [int(x) for x in nocom(m1.group(1)).replace("\n", " ").split(",") if x.strip()]
+        cv = [int(x) for x in nocom(m2.group(1)).replace("\n", " ").split(",") if x.strip()]
         # pointer aliases and the per-system offset are resolved first: `data[jistart + 3]`, `data_cur[3]` are one element
         body = ol.resolve_aliases(src[src.index("__global__ void JacKernel"):src.index("int Jac(")])
         st = ol.extract_statements(body, r"data\[(\d+)\]")
@@ -155,6 +164,10 @@ def check_desc(res, model, desc, rng, tag, channel_b=False, after=None):
             mat, csr = rendered_matrix(d, solver, method)
             where = f"channel B ({solver}/{method})"
             res.count(f"rendered:{method}")
+            if mat is None:
+                res.corr_disagreements += 1
+                res.violation("correspondence", f"{where}: the reader does not understand the rendered Jacobian file ({csr})", case)
+                continue
             if solver == "odeint":
                 src = (d / "src" / "naunet_ode.cpp").read_text()
                 st = c01.fex_statements(src[src.index("void Fex::operator()"):src.index("Jac::Jac(")])
